@@ -19,6 +19,11 @@ def _opt_structure(f, rule):
     need(OPT in f.thir, rule, OPT)
     sts = T.stmts(f.thir[OPT]["body"], {"__noinline__": True})
     main = [s for s in sts if s[0] == "for"]
+    if not main:
+        # `loop { .. iteration += 1 }` with an explicit counter instead of `for iteration in 0..`: same body, presented in the
+        # shape of a for statement (names, iterator, body, span)
+        lps = [s for s in sts if s[0] == "loop" and any(x[0] == "call" and x[1].endswith("Vec::drain") for st in s[1] for e in T.stmt_exprs(st) for x in T.sx_walk(e))]
+        main = [("for", [], ("loop",), lp[1], lp[2]) for lp in lps]
     need(len(main) == 1, rule, OPT, "(one main loop)")
     main = main[0]
     drains = [s for s in main[3] if s[0] == "for" and any(x[0] == "call" and x[1].endswith("Vec::drain") for x in T.sx_walk(s[2]))]
@@ -79,6 +84,33 @@ def sync(ctx):
         if fl and adt_fields(strip_into_iter(T.sx(fl[0])), "core::ops::RangeFrom"):
             raw_main = m
             break
+    counter = None
+    if raw_main is None and main[2] == ("loop",):
+        # `let mut iteration = 0; loop { ..; iteration += 1; }`: the counter is the only variable stepped by the loop, by one,
+        # as the last statement of the body, and no `continue` of the outer loop can skip it
+        body_sts = main[3]
+        incs = [st for st in body_sts if st[0] == "assignop" and st[1] == "AddAssign" and st[2][0] == "var" and st[3] == ("lit", 1)]
+        if len(incs) == 1 and body_sts[-1] is incs[0]:
+            cv = incs[0][2][1]
+            others = [st for st in T.stmt_walk(body_sts) if st is not incs[0] and st[0] in ("assign", "assignop") and is_var(st[1] if st[0] == "assign" else st[2], cv)]
+
+            def outer_continue(stl):
+                for st in stl:
+                    if st[0] == "continue":
+                        return True
+                    if st[0] == "if" and (outer_continue(st[2]) or outer_continue(st[3])):
+                        return True
+                    if st[0] == "match" and any(outer_continue(bd) for _p, bd, _g in st[2]):
+                        return True
+                    if st[0] == "letelse" and outer_continue(st[1]):
+                        return True
+                return False
+            init = [st for st in sts if st[0] == "let" and st[2] and st[1].split("#")[0] == cv and st[3] == ("lit", 0)]
+            if not others and not outer_continue(body_sts) and len(init) == 1:
+                counter = cv
+        for m in T.exprs(raw, "Loop"):
+            if any(T.canon(T.callee_of(c)).endswith("Vec::drain") for c in T.calls(m)) and raw_main is None:
+                raw_main = m
     need(raw_main is not None, r, OPT, "(main loop in THIR)")
     main_ids = {id(c) for c in T.calls(raw_main)}
     calls = []
@@ -89,7 +121,7 @@ def sync(ctx):
             calls.append((("raw", T.span_str(c["span"])), x))
             if id(c) in main_ids:
                 in_main.add(id(x))
-    it_var = main[1][0].split("#")[0]
+    it_var = main[1][0].split("#")[0] if main[1] else counter
     lets = {s[1].split("#")[0]: s[3] for s in main[3] if s[0] == "let"}
     n = 0
     for st, c in calls:
@@ -123,7 +155,7 @@ def sync(ctx):
     # main loop counts characters from 0
     rp = strip_into_iter(main[2])
     rf = adt_fields(rp, "core::ops::RangeFrom")
-    obs.append(Ob(r, "iteration-from-0", bool(rf) and rf.get("start") == ("lit", 0), "the main loop counts consumed characters from 0"))
+    obs.append(Ob(r, "iteration-from-0", (bool(rf) and rf.get("start") == ("lit", 0)) or counter is not None, "the main loop counts consumed characters from 0"))
     obs += floor(obs, r, 3 * 3 + 4, "SYNC obligations")
     return obs
 
@@ -160,6 +192,7 @@ def plan_mono(ctx):
     fm = _fn(f, "GenericPlan::for_mode", r)
     fsts = T.stmts(f.thir[fm]["body"], {})
     lits = [x for st in T.stmt_walk(fsts) for e in T.stmt_exprs(st) for x in T.sx_walk(e) if x[0] == "tuple" and len(x[1]) == 2 and is_var(x[1][1], "mode")]
+    lits = sorted(set(lits), key=repr)      # a hoisted `let switches = ..` shows the literal at the let and at its (inlined) use
     ok = len(lits) == 1 and lits[0][1][0][0] == "call" and lits[0][1][0][1].endswith("::len") and is_var(strip_into_iter(lits[0][1][0][2][0]), "data")
     obs.append(Ob(r, "for_mode", ok, "for_mode starts the switch list with (data.len(), mode)", detail=[T.sx_show(x) for x in lits]))
     # optimize: terminator 0, front removal only of an initial Ascii entry
@@ -213,14 +246,27 @@ def prov_plan(ctx):
     msts = T.stmts(f.thir[ms]["body"], {"__noinline__": True})
     rm = [(st, x) for st in T.stmt_walk(msts) for ex in T.stmt_exprs(st) for x in T.sx_calls(ex, "Vec::remove")]
     ok = len(rm) == 1 and rm[0][1][2][1] == ("lit", 0)
-    # guarded by chars_left == planned_switches[0].0
+    # guarded by chars_left == planned_switches[0].0: among the branch conditions that hold whenever the remove call runs
     guard = False
-    for st in T.stmt_walk(msts):
-        if st[0] == "let" and st[3][0] == "if":
-            c = st[3][1]
-            txt = T.sx_show(c, 400)
-            guard = "chars_left" in txt and "planned_switches" in txt and " Eq " in txt
-    obs.append(Ob(r, "consume", ok and guard, "maybe_switch_mode takes the front plan entry exactly when chars_left equals its position"))
+    mb = M.Body(f.mir[ms]) if ms in f.mir else None
+    need(mb is not None, r, ms, "(MIR body)")
+    rmc = mb.calls(lambda c, _t: T.canon(c).endswith("Vec::remove"))
+    det = None
+    if len(rmc) == 1:
+        conds = mb.conditions_at(rmc[0][0])
+        det = [(M.show(c, 160), v) for c, v in conds]
+
+        def is_pos(e):
+            # self.planned_switches[0].0
+            return e[0] == "field" and e[2] == "0" and any(isinstance(x, tuple) and x[0] == "field" and x[2] == "planned_switches" for x in M.walk(e)) \
+                and any(isinstance(x, tuple) and x[:2] == ("const", 0) for x in M.walk(e))
+
+        def is_left(e):
+            return e[0] == "call" and T.canon(e[1]).endswith("characters_left")
+        for c, v in conds:
+            if c[0] == "bin" and ((c[1] == "Eq" and v) or (c[1] == "Ne" and not v)) and ((is_pos(c[2]) and is_left(c[3])) or (is_pos(c[3]) and is_left(c[2]))):
+                guard = True
+    obs.append(Ob(r, "consume", ok and guard, "maybe_switch_mode takes the front plan entry only when chars_left equals its position", detail=det))
     obs += floor(obs, r, 3, "plan provenance obligations")
     return obs
 
@@ -276,6 +322,10 @@ def pigeonhole(ctx):
     N = seen[0][3][2]
     obs.append(Ob(r, "table", isinstance(N, int), "remove_hopeless_cases keeps a [bool; %s] occupancy table" % N, site=site))
     loops = [s for s in sts if s[0] == "for"]
+    retains = [s for s in sts if s[0] == "expr" and s[1][0] == "call" and s[1][1].endswith("Vec::retain") and is_var(strip_into_iter(s[1][2][0]), "list")
+               and s[1][2][1][0] == "closure" and sts.index(s) > sts.index(seen[0])]
+    if retains and (not loops or sts.index(retains[0]) < sts.index(loops[0])):
+        return obs + _pigeonhole_retain(f, r, sts, retains[0], sv, N)
     need(loops, r, RHC, "(dedup loop)")
     lp = loops[0]
     rp = range_parts(strip_into_iter(lp[2]))
@@ -351,6 +401,99 @@ def pigeonhole(ctx):
     rest_sts = sts[sts.index(lp) + 1:]
     adds = [x for st in T.stmt_walk(rest_sts) for e in T.stmt_exprs(st) for x in T.sx_walk(e) if x[0] == "call" and (x[1].endswith("Vec::push") or x[1].endswith("Vec::insert") or x[1].endswith("Vec::extend") or x[1].endswith("Vec::append"))]
     obs.append(Ob(r, "second-pass-removes", not adds, "after the dedup loop nothing is added to the list", detail=[T.sx_show(a) for a in adds]))
+    obs += floor(obs, r, 7, "pigeonhole obligations")
+    return obs
+
+
+def _slot_ok(e):
+    """start_mode().index() * 6 + current().index()"""
+    if e[0] == "bin" and e[1] == "Add" and e[2][0] == "bin" and e[2][1] == "Mul" and e[2][3] == ("lit", 6):
+        a, b2 = e[2][2], e[3]
+
+        def idx_of(x, what):
+            return x[0] == "call" and x[1].endswith("EncodationType::index") and x[2][0][0] == "call" and x[2][0][1].endswith("GenericPlan::" + what)
+        return idx_of(a, "start_mode") and idx_of(b2, "current")
+    return False
+
+
+def _pigeonhole_retain(f, r, sts, ret, sv, N):
+    """the dedup pass written as `list.retain(|pl| { let idx = slot(pl); let first = !seen[idx]; seen[idx] = true; first })`:
+    retain visits every element in order; an element is kept iff its slot was free, and every visited element marks its slot"""
+    obs = []
+    cdef = ret[1][2][1][1]
+    need(cdef in f.thir, r, cdef)
+    cb = f.thir[cdef]
+    csts = T.stmts(cb["body"], {"__noinline__": True})
+    obs.append(Ob(r, "covers-list", True, "the dedup pass is Vec::retain over the whole list (visits every element once, in order)", site=ret[2]))
+    lets = {s[1].split("#")[0]: s[3] for s in csts if s[0] == "let" and not s[2]}
+
+    def expand(e, d=5):
+        if d and e[0] == "var" and e[1] in lets:
+            return expand(lets[e[1]], d - 1)
+        if e[0] in ("bin",):
+            return ("bin", e[1], expand(e[2], d - 1), expand(e[3], d - 1))
+        if e[0] == "un":
+            return ("un", e[1], expand(e[2], d - 1))
+        if e[0] == "call":
+            return ("call", e[1], tuple(expand(a, d - 1) for a in e[2]))
+        if e[0] == "index":
+            return ("index", expand(e[1], d - 1), expand(e[2], d - 1))
+        return e
+
+    def slot_of(e):
+        e = expand(e)
+        if e[0] == "index" and is_var(e[1], sv):
+            return e[2]
+        if e[0] == "call" and (e[1].endswith("::index") or e[1].endswith("::index_mut")) and is_var(strip_into_iter(e[2][0]), sv):
+            return e[2][1]
+        return None
+    marks = [(k, st) for k, st in enumerate(csts) if st[0] == "assign" and slot_of(st[1]) is not None]
+    nested_marks = [st for st in T.stmt_walk(csts) if st[0] in ("assign", "assignop") and slot_of(st[1] if st[0] == "assign" else st[2]) is not None]
+    early = [st for st in T.stmt_walk(csts) if st[0] in ("return", "break", "continue")]
+    tail = csts[-1] if csts else None
+    ok = False
+    det = None
+    idx_expr = None
+    # form 1: straight line - the result is `!seen[idx]` read before the unconditional `seen[idx] = true`
+    if len(marks) == 1 and len(nested_marks) == 1 and marks[0][1][2] == ("lit", True) and not early and tail is not None and tail[0] == "expr":
+        idx_expr = slot_of(marks[0][1][1])
+        res = tail[1]
+        read_pos = None
+        if res[0] == "var":
+            for k, st in enumerate(csts):
+                if st[0] == "let" and st[1].split("#")[0] == res[1]:
+                    read_pos, res = k, st[3]
+        if res[0] == "un" and res[1] == "Not" and slot_of(res[2]) is not None and expand(slot_of(res[2])) == expand(idx_expr) and read_pos is not None and read_pos < marks[0][0]:
+            ok = True
+        det = {"idx": T.sx_show(expand(idx_expr)), "result": T.sx_show(res)}
+    # form 2: `if seen[idx] { false } else { seen[idx] = true; true }`
+    if not ok and tail is not None and tail[0] == "if" and isinstance(tail[1], tuple) and slot_of(tail[1]) is not None and not early:
+        idx_expr = slot_of(tail[1])
+        th, el = tail[2], tail[3]
+        ok = len(th) == 1 and th[0][0] == "expr" and th[0][1] == ("lit", False) and len(el) == 2 and el[0][0] == "assign" and slot_of(el[0][1]) is not None \
+            and expand(slot_of(el[0][1])) == expand(idx_expr) and el[0][2] == ("lit", True) and el[1][0] == "expr" and el[1][1] == ("lit", True) and len(nested_marks) == 1
+        det = {"idx": T.sx_show(expand(idx_expr)), "form": "if"}
+    obs.append(Ob(r, "no-skip", not early, "every element reaches the occupancy test (the closure has no early exit)"))
+    obs.append(Ob(r, "remove-or-mark", ok, "each element is either dropped (slot already occupied) or kept and marks its slot occupied, on the same index", detail=det))
+    okidx = idx_expr is not None and _slot_ok(expand(idx_expr))
+    obs.append(Ob(r, "slot", okidx, "the slot is start_mode().index() * 6 + current().index()"))
+    fn = "encodation::encodation_type::EncodationType::index"
+    need(fn in f.thir, r, fn)
+    m = T.top_match(f.thir[fn]["body"])
+    rows, rest = T.enum_match_table(m, MODES)
+    vals = {}
+    for vs, body, arm in rows:
+        for v in vs:
+            try:
+                vals[v] = T.Folder(f).fold(body)
+            except (T.Undecidable, T.Trap) as ex:
+                vals[v] = str(ex)
+    okb = sorted(vals.values(), key=str) == list(range(6)) and not rest
+    obs.append(Ob(r, "index-bijection", okb, "EncodationType::index() is a bijection onto 0..6 (so the slot is < 36)", detail=vals))
+    obs.append(Ob(r, "bound", isinstance(N, int) and N >= 36 and okb and okidx, "at most N = %s plans survive remove_hopeless_cases; the second pass only removes" % N))
+    rest_sts = sts[sts.index(ret) + 1:]
+    adds = [x for st in T.stmt_walk(rest_sts) for e in T.stmt_exprs(st) for x in T.sx_walk(e) if x[0] == "call" and (x[1].endswith("Vec::push") or x[1].endswith("Vec::insert") or x[1].endswith("Vec::extend") or x[1].endswith("Vec::append"))]
+    obs.append(Ob(r, "second-pass-removes", not adds, "after the dedup pass nothing is added to the list", detail=[T.sx_show(a) for a in adds]))
     obs += floor(obs, r, 7, "pigeonhole obligations")
     return obs
 
